@@ -529,3 +529,42 @@ package sqlite3
 //@   at call append#3: ghost a3 := true
 //@   loop 1: invariant every-scanned-row-produced-exactly-its-kinds: scanned ==> (a1 == (hp && gf & 1 != 0) && a2 == (hp && gf & 2 != 0) && a3 == (hp && gf & 4 != 0))
 //@   ensures local-flag-values: SimpleFlag == 1 && PrefixFlag == 2 && LeaseFlag == 4
+
+// ---- C17 (SQLite side of the hand-over): Export reads all three kinds of every requested key inside one read
+// transaction, keeps every child row it scanned, fills one slot per key, and fails as a whole on any read error other
+// than "no row"; importedSimpleValue decides which transfers carry a simple value (a nil value with other kinds does
+// not create one, an all-empty transfer stands for an empty simple value).
+//@ func importedSimpleValue(val *protocol.KVTransfer) (r []byte, ok bool)
+//@   safety off
+//@   ensures nil-transfer-has-no-value: val == nil ==> (!ok && r == nil)
+//@   ensures a-present-simple-value-is-taken-as-is: (val != nil && val.SimpleValue != nil) ==> (ok && r == val.SimpleValue)
+//@   ensures an-all-empty-transfer-is-an-empty-simple-value: (val != nil && val.SimpleValue == nil && len(val.PrefixChildren) == 0 && val.LeaseToken == 0) ==> (ok && r != nil && len(r) == 0)
+//@   ensures other-kinds-without-simple-value-create-none: (val != nil && val.SimpleValue == nil && (len(val.PrefixChildren) != 0 || val.LeaseToken != 0)) ==> !ok
+
+//@ func (s *SqliteKV) Export(ctx context.Context, keys [][]byte) (r []*protocol.KVTransfer, err error)
+//@   safety off
+//@   opt frame=off
+//@   ghost txs int = 0
+//@   ghost rerr error = nil
+//@   at call withReadTx#*: assert one-read-transaction-on-the-reader-connection: callarg1 == s.reader && txs == 0 && len(vals) == len(keys)
+//@   at after call withReadTx#*: ghost rerr := callresult
+//@   at after call withReadTx#*: ghost txs := txs + 1
+//@   ensures local-a-failed-read-exports-nothing: (txs == 1 && rerr != nil) ==> (err == rerr && r == nil)
+//@   ensures local-success-returns-one-slot-per-key: err == nil ==> (txs == 1 && rerr == nil && len(r) == len(keys))
+
+//@ func (s *SqliteKV) Export$1(tx *sql.Tx) (err error)
+//@   safety off
+//@   opt frame=off
+//@   requires the-transaction-and-the-captured-receiver-exist: tx != nil && s != nil && len(vals) == len(keys)
+//@   ghost onTx bool = true
+//@   ghost lastStmt *sql.Stmt = nil
+//@   at call StmtContext#*: ghost onTx := onTx && callarg0 == tx
+//@   at call StmtContext#*: ghost lastStmt := callarg2
+//@   at call QueryRow#1: assert reads-the-simple-value-of-this-key-in-the-transaction: onTx && lastStmt == s.stmts.exportSimpleGet && len(callarg1) == 1 && cast(callarg1[0], "[]byte") == key
+//@   at call Query#1: assert reads-the-children-of-this-key-in-the-transaction: onTx && lastStmt == s.stmts.exportPrefixList && len(callarg1) == 1 && cast(callarg1[0], "[]byte") == key
+//@   at call QueryRow#2: assert reads-the-lease-of-this-key-in-the-transaction: onTx && lastStmt == s.stmts.exportLeaseGet && len(callarg1) == 1 && cast(callarg1[0], "[]byte") == key
+//@   at call append#1: assert every-scanned-child-is-kept: callarg0 == prefix && len(callarg1) == 1 && callarg1[0] == child
+//@   at call scanInt64AsUint64#1: assert the-scanned-lease-token-is-exported: callarg0 == leaseToken
+//@   ensures success-fills-every-slot: err == nil ==> (forall j int {vals[j]} :: (0 <= j && j < len(keys)) ==> vals[j] != nil)
+//@   loop key: invariant slots-filled-so-far: onTx && -1 <= rangeindex && rangeindex < len(keys) && len(vals) == len(keys) && (forall j int {vals[j]} :: (0 <= j && j <= rangeindex) ==> vals[j] != nil)
+//@   loop child: invariant still-on-the-transaction: onTx && 0 <= rangeindex && rangeindex < len(keys) && len(vals) == len(keys) && (forall j int {vals[j]} :: (0 <= j && j < rangeindex) ==> vals[j] != nil)
